@@ -1,5 +1,5 @@
 #!/bin/sh
-# setup_cmd: offline, from a fresh restore. Warms both toolchains' build caches and builds every test binary once.
+# setup_cmd: offline, from a fresh restore. Warms both toolchains' build caches and builds every test binary the checks use.
 set -e
 cd "$(dirname "$0")"
 export GOFLAGS=-mod=mod GOPROXY=off GOSUMDB=off GOTOOLCHAIN=local
@@ -15,14 +15,24 @@ miss=[l for l in src if l not in have]
 if miss:
     open(dst,'a').write("\n".join(miss)+"\n")
 PY
-for p in $(ls -d */ | tr -d /); do
-  [ "$p" = common ] && continue
-  if ls $p/*_test.go >/dev/null 2>&1; then
-    if grep -l '^//go:build go1.25' $p/*_test.go >/dev/null 2>&1; then
-      go1.26.8 test -c -tags verif -o ../.build/$p-go1.26.8.test ./$p || exit 1
-    else
-      go test -c -tags verif -o ../.build/$p-go.test ./$p || exit 1
-    fi
-  fi
-done
+# one build per (package, toolchain, race) named in checks_table.py
+python3 - <<'PY' > ../.build/targets.txt
+import sys
+sys.path.insert(0, '..')
+from checks_table import CHECKS
+seen=set()
+for c in CHECKS.values():
+    for j in c['jobs']:
+        if j.get('kind')=='fuzz':
+            continue
+        seen.add((j['pkg'], j['go'], bool(j.get('race'))))
+for pkg,go,race in sorted(seen):
+    print(pkg, go, 1 if race else 0)
+PY
+while read pkg go race; do
+  name=$(basename $pkg)-$go
+  flags=""
+  if [ "$race" = 1 ]; then name=$name-race; flags="-race"; fi
+  $go test -c -tags verif $flags -o ../.build/$name.test $pkg || exit 1
+done < ../.build/targets.txt
 echo setup ok
